@@ -73,6 +73,7 @@ type Env struct {
 	Known     []Known
 	WorkerBin string // path of this binary (child processes for solo references)
 	LogEvents bool
+	Tick      func() // tells the runner the worker is alive (long runs)
 }
 
 // Prop is implemented by every property harness.
